@@ -13,6 +13,7 @@
     they disappear from every statement about whole programs.
 -/
 import GEVerif.Lemmas.WellTyped
+import GEVerif.Lemmas.StackMachine
 
 namespace GEVerif.C01
 open GEVerif GEVerif.WellTyped
@@ -139,5 +140,135 @@ example : ∃ v s', randomTree exGWT ⟨.grow, 2⟩ 30 (exStWT [2, 2, 0, 5, 0, 7
 -- is instantiated by the model (the real code raises KeyError there)
 example : grammarWF (analyse { classes := [{ name := "A", abstract := true, parent := none, fields := [] }],
                                start := 0, considered := [0] }) = false := by decide
+
+/-! ### The stack machine (`StackBasedGGGPRepresentation.genotype_to_phenotype`)
+
+`create_tree_using_stacks` (Model/Stack.lean) fills a refined (`Annotated`) field with the base
+type's no-argument constructor and never validates it, so its programs are well-typed only
+STRUCTURALLY: for the grammar with every refinement erased (`stripG g`: the classes of `g` with
+`stripTy` applied to every field type, the registration of `g`; for a grammar without refinements
+`stripG g = g`).  Refinement satisfaction fails: `C02_stack_refinement_witness`.
+
+Hypotheses (decidable) on the symbol list `order` (`sorted(g.get_all_mentioned_symbols())`):
+* `orderRegistered g order` — its classes are registered symbols of `g`;
+* `annDefaultsOK order`     — the base of every refined symbol is not a NON-EMPTY tuple (nor a union
+  or a class): `tuple[int, int]()` is `()`, which is no pair — `C01_stack_ann_tuple_witness`.
+
+The proof is the STACK INVARIANT `StackLemmas.Inv`: every value on `stacks[t]` is well-typed for `t`
+with the refinements erased; it holds initially and is preserved by every step for every target
+(`StackLemmas.step_inv`). -/
+
+open GEVerif.StackLemmas in
+/-- the stack machine on ANY grammar (refined fields allowed) with ANY genotype, failure limit and
+fuel: the program is well-typed for the grammar with the refinements erased -/
+theorem C01_mapStack_wt_erased (g : Grammar) (hg : grammarWF g = true) (order : List Ty)
+    (hreg : orderRegistered g order = true) (hann : annDefaultsOK order = true)
+    (limit fuel : Nat) (dna : List Int) (v : Val) (s' : SynSt)
+    (h : Stack.mapStack g order limit fuel dna = .ok v s') :
+    wt (stripG g) [] (.cls g.spec.start) v = true :=
+  mapStack_wtS g (GWF_of_grammarWF g hg).alts order hreg hann limit fuel dna v s' h
+
+open GEVerif.StackLemmas in
+/-- … in particular on a grammar whose fields carry no refinement (e.g. `analyse (stripSpec spec)`)
+the program is well-typed, full stop -/
+theorem C01_mapStack_wt_struct (g : Grammar) (hg : grammarWF g = true)
+    (hs : fieldsStripped g = true) (order : List Ty)
+    (hreg : orderRegistered g order = true) (hann : annDefaultsOK order = true)
+    (limit fuel : Nat) (dna : List Int) (v : Val) (s' : SynSt)
+    (h : Stack.mapStack g order limit fuel dna = .ok v s') :
+    wt g [] (.cls g.spec.start) v = true := by
+  have := C01_mapStack_wt_erased g hg order hreg hann limit fuel dna v s' h
+  rwa [stripG_of_fieldsStripped g hs] at this
+
+open GEVerif.StackLemmas in
+/-- Why `annDefaultsOK`: for `Root(iv: Annotated[tuple[int, int], IntervalRange(1, 2, 10)])` the
+machine returns `Root(())`, whose field is not a pair: ill-typed even with the refinement erased
+(both for `stripG` and for the re-analysed stripped declarations).  Open finding
+`refined-tuple-field-is-empty-tuple`. -/
+theorem C01_stack_ann_tuple_witness :
+    grammarWF stackTupG = true ∧ orderRegistered stackTupG stackTupOrder = true ∧
+    annDefaultsOK stackTupOrder = false ∧
+    Stack.mapStack stackTupG stackTupOrder 100 10 [0, 200000, 0] =
+      .ok (.node 0 0 0 [.tuple []]) { src := .gene { dna := [0, 200000, 0], index := 2 } } ∧
+    wt (stripG stackTupG) [] (.cls 0) (.node 0 0 0 [.tuple []]) = false ∧
+    wt (analyse (stripSpec stackTupSpec)) [] (.cls 0) (.node 0 0 0 [.tuple []]) = false := by
+  refine ⟨by decide, by decide, by decide, by rfl, ?_, ?_⟩
+  · have hf : ((stripG stackTupG).cls 0).fields = [("iv", .tuple [.int, .int])] := by rfl
+    rw [wt]
+    simp only [hf]
+    simp [wtFields, wt, wtTuple]
+  · have hf : ((analyse (stripSpec stackTupSpec)).cls 0).fields = [("iv", .tuple [.int, .int])] := by rfl
+    rw [wt]
+    simp only [hf]
+    simp [wtFields, wt, wtTuple]
+
+open GEVerif.StackLemmas in
+/-- The exceptions of the stack machine.  When the loop gives up it is with `GeneticEngineError`
+("Stack genome not enough", `.library`) or because the model's fuel ran out; anything else needs a
+degenerate symbol list: `KeyError` — an abstract class without registered productions (open
+finding), `AssertionError` — `choice([])` on an abstract class with an empty production list or
+an empty `Union`, `IndexError` — no symbols at all.  (`ValueError`, `randint` on an empty range,
+cannot happen.)  The model reads an empty genotype as zeros; the real `ListWrapper` divides by
+`len(dna) = 0` there, so read the statement for non-empty genotypes. -/
+theorem C01_mapStack_err_library_or_foreign (g : Grammar) (order : List Ty) (limit fuel : Nat)
+    (dna : List Int) (e : Err) (s' : SynSt)
+    (h : Stack.mapStack g order limit fuel dna = .err e s') :
+    e = .library ∨ e = .foreign "fuel" ∨
+    (orderProductive g order = false ∧
+      (e = .foreign "KeyError" ∨ e = .foreign "AssertionError" ∨ e = .foreign "IndexError")) :=
+  mapStack_err g order limit fuel dna e s' h
+
+open GEVerif.StackLemmas in
+/-- … and for a non-empty symbol list whose abstract classes have productions and whose unions
+have alternatives (`orderProductive`, decidable): `GeneticEngineError` or out of fuel, nothing else -/
+theorem C01_mapStack_err_library (g : Grammar) (order : List Ty)
+    (hprod : orderProductive g order = true) (limit fuel : Nat)
+    (dna : List Int) (e : Err) (s' : SynSt)
+    (h : Stack.mapStack g order limit fuel dna = .err e s') :
+    e = .library ∨ e = .foreign "fuel" := by
+  rcases mapStack_err g order limit fuel dna e s' h with h | h | ⟨h, _⟩
+  · exact Or.inl h
+  · exact Or.inr h
+  · rw [hprod] at h; cases h
+
+/-! #### Non-vacuity (stack machine) -/
+
+section
+open GEVerif.StackLemmas
+
+-- a grammar with an abstract class, a tuple, a list, a union and a refined field: the machine
+-- returns `Root(Lit(9), (5, True), [7], "", 0)`, structurally well-typed by the theorem …
+example : grammarWF stackExG = true ∧ orderRegistered stackExG stackExOrder = true ∧
+    annDefaultsOK stackExOrder = true ∧ orderProductive stackExG stackExOrder = true := by decide
+example : okVal (Stack.mapStack stackExG stackExOrder 100 50 stackExDna) stackExVal = true := by
+  decide +kernel
+example : ∃ s', Stack.mapStack stackExG stackExOrder 100 50 stackExDna = .ok stackExVal s' ∧
+    wt (stripG stackExG) [] (.cls 0) stackExVal = true := by
+  obtain ⟨s', h⟩ := okVal_spec _ _
+    (show okVal (Stack.mapStack stackExG stackExOrder 100 50 stackExDna) stackExVal = true by
+      decide +kernel)
+  exact ⟨s', h, C01_mapStack_wt_erased stackExG (by decide) _ (by decide) (by decide) _ _ _ _ _ h⟩
+-- … the same declarations with the refinement erased: `fieldsStripped` holds, the program is
+-- well-typed
+example : grammarWF stackExGS = true ∧ fieldsStripped stackExGS = true ∧
+    orderRegistered stackExGS stackExOrderS = true ∧ annDefaultsOK stackExOrderS = true := by decide
+example : fieldsStripped stackExG = false := by decide
+example : ∃ s', Stack.mapStack stackExGS stackExOrderS 100 50 stackExDnaS = .ok stackExValS s' ∧
+    wt stackExGS [] (.cls stackExGS.spec.start) stackExValS = true := by
+  obtain ⟨s', h⟩ := okVal_spec _ _
+    (show okVal (Stack.mapStack stackExGS stackExOrderS 100 50 stackExDnaS) stackExValS = true by
+      decide +kernel)
+  exact ⟨s', h, C01_mapStack_wt_struct stackExGS (by decide) (by decide) _ (by decide) (by decide)
+    _ _ _ _ _ h⟩
+-- the loop gives up with `GeneticEngineError` after `limit` failures; out of fuel; `KeyError` on
+-- an abstract class without productions in the symbol list
+example : errIs (Stack.mapStack stackExG stackExOrder 3 50 [0, 0]) .library = true := by decide +kernel
+example : errIs (Stack.mapStack stackExG stackExOrder 100 2 [0, 300000, 7]) (.foreign "fuel") = true := by
+  decide +kernel
+example : errIs (Stack.mapStack
+    (analyse { classes := [{ name := "A", abstract := true, parent := none, fields := [] }],
+               start := 0, considered := [0] }) [.cls 0] 100 5 [0, 0]) (.foreign "KeyError") = true := by
+  decide +kernel
+end
 
 end GEVerif.C01
